@@ -453,6 +453,15 @@ func runC09Concurrent(cfg *config, res *monitor.Result) {
 		if pi := monitor.Try(func() { want, werr = fresh.(fastMsg).Marshal() }); pi != nil || werr != nil {
 			continue
 		}
+		// the owning runtime's encoder may order fields differently (protobuf-go: by number, csproto: as declared):
+		// its concurrent calls are compared with its own sequential output on a fresh copy
+		var wantRT []byte
+		if pi := monitor.Try(func() {
+			f2, _ := build(t, model)
+			_, wantRT, werr = runtimeSizeMarshal(t.pkg.Flavour, f2, true)
+		}); pi != nil || werr != nil || len(wantRT) != len(want) {
+			continue
+		}
 		c := confs[ci%len(confs)]
 		ci++
 		runtime.GOMAXPROCS(c.procs)
@@ -499,11 +508,16 @@ func runC09Concurrent(cfg *config, res *monitor.Result) {
 					if pi != nil {
 						gerr = fmt.Errorf("panic: %s", pi.Value)
 					}
-					if gerr != nil || !bytes.Equal(got, want) {
+					exp := want
+					if (gi+it)%5 == 3 {
+						exp = wantRT
+					}
+					if gerr != nil || !bytes.Equal(got, exp) {
 						mu.Lock()
 						res.Violate(fmt.Sprintf("C09:%s:concurrent:%s", t.pkg.Flavour, what),
-							fmt.Sprintf("%s (%s): concurrent %s on a quiescent message returned %d bytes (err=%v), expected %d", t.md.FullName(), t.pkg.GoPkg, what, len(got), gerr, len(want)),
-							map[string]any{"package": t.pkg.GoPkg, "message": string(t.md.FullName()), "goroutines": c.g, "gomaxprocs": c.procs})
+							fmt.Sprintf("%s (%s): concurrent %s on a quiescent message returned %d bytes (err=%v), expected %d", t.md.FullName(), t.pkg.GoPkg, what, len(got), gerr, len(exp)),
+							map[string]any{"package": t.pkg.GoPkg, "message": string(t.md.FullName()), "goroutines": c.g, "gomaxprocs": c.procs,
+								"got_hex": monitor.Hex(got), "expected_hex": monitor.Hex(exp), "contents": bridge.Text(model)})
 						mu.Unlock()
 					}
 				}
